@@ -536,3 +536,4 @@ Definition mismatches1 (cs : list case1) : list N :=
    that occurs is matched (used as a cross-check of the harness's own oracle) *)
 Definition closedb (ts : list tri) : bool :=
   forallb (fun e : cell * cell => dcount ts (fst e) (snd e) =? dcount ts (snd e) (fst e)) (dedges ts).
+
